@@ -4,13 +4,43 @@ import hh_common
 ALLOWED_AXIOMS = frozenset()
 MANIFEST = dict(
     category="proof",
-    text="placeholder",
+    text="Coq theorems over a branch-for-branch Gallina model of heavyhitters.py (_add, add, _add_ngram, _merge, _max_count, "
+         "__getitem__, generate_candidate_set, query, save/load), for every width, depth, max_key_len <= 255, every bucket "
+         "function and every well formed history of adds with multiplicities, ngram adds, merges, save/load and queries: "
+         "hh_cell_sound (count of the stored key <= true multiplicity of that key; a stored key with positive count sits in its "
+         "own column), C03_getitem (hh[k] <= truth of the first max_key_len bytes of k as a byte string), C03_query (every "
+         "reported (key, n) has 0 < n <= truth), pad_len_inj (array+length determine the byte string), C03_refuted_prefix (the "
+         "unrepaired bytes-only matching rule violates the property: F1). Model tied to the code by running random and "
+         "enumerated programs on the real HeavyHitters and evaluating the model inside Coq on the same programs, comparing the "
+         "complete state after every operation.",
     design_ref="DESIGN.md section 6, C03",
-    note="placeholder",
-    technique="Coq proof + vm_compute correspondence against the Numba code")
+    note="Trusted: Coq kernel + vm_compute; the hand transcription HH.v (validated by the correspondence run, bucket map observed "
+         "on a probe sketch, never computed); translator for hh_cap; Numba's uint32/uint8 store semantics. n_added_records are "
+         "modelled as unbounded integers (2^64 wrap out of scope); keys shorter than 2^64 bytes. Theorems closed under the "
+         "global context (no axioms).",
+    technique="Coq proof (cell invariant by induction over histories) + vm_compute correspondence against the Numba code")
 
 
 def run(ctx):
     ctx.level = "proof"
     quick = ctx.tier == "quick"
-    hh_common.run_suite(ctx, "C03", 300 if quick else 20000, 300 if quick else 6000)
+    extra = [(p, True) for p in hh_common.exhaustive_alias(5 if quick else 6)]
+    n_ex = len(extra)
+    if not quick:   # the longer enumeration goes to Coq only in part
+        extra = [(p, i % 4 == 0) for i, (p, _) in enumerate(extra)]
+    hh_common.run_suite(ctx, "C03", 1500 if quick else 20000, 500 if quick else 5000, extra_programs=extra)
+    ctx.cov["exhaustive"] = True
+    ctx.cov["rule"] = (
+        "cases = 5 corpus programs (F1/F1b witnesses, saturation, cache) + EXHAUSTIVE sub-space: all %d add sequences of "
+        "length <= %d over the alias alphabet {a, a\\0, '', \\0} with weights 3,2,2,1,1 by position at width 1, depth 1, "
+        "max_key_len 2 (exhaustive only for that sub-space) + random programs of <= 25 operations (add/update list/dict/"
+        "add_ngram/update_ngram/merge incl. self-merge/save-load through files/query/generate_candidate_set/hh[k]) on up to "
+        "4 sketches, width 1..4, depth 1..4, max_key_len 1..16, alias alphabet (empty, NUL runs, k, k+NUL, k+NULNUL, keys "
+        "longer than max_key_len sharing the prefix, bytes >= 0x80), multiplicities {0,1,2,small,2^32-2..2^32+1}. "
+        "Predicate on the implementation after every operation: hh[k] <= Counter[k[:max_key_len]] for the whole alphabet and "
+        "0 < n <= Counter[key] for every reported pair. distinct = distinct (shape, program); non-trivial = width <= 2 or an "
+        "alias pair present or a merge or a multiplicity >= 2^32-2." % (n_ex, 5 if quick else 6))
+    ctx.assumptions += ["np.uint64(len(key)) does not wrap (keys shorter than 2^64 bytes)",
+                        "n_added_records does not wrap at 2^64",
+                        "multiplicities are non-negative integers; thresholds are in [0, 2^32-1] (others raise OverflowError)",
+                        "lhh/lhh_count/key_lens are only changed through the public methods"]
